@@ -194,6 +194,14 @@ REGISTRY = {
     "C03": _pc("run_c03", RULE_C03, probes=["negotiations_completed", "connected", "data_channels_verified", "renegotiations",
                                             "offering_side_swapped"],
                measure="configuration classes (bundle policies x item counts x data channels) counted under `configurations`"),
+    "C14": _pc("run_c14", ("each evaluation is one program of up to 18 calls over {createOffer, createAnswer, setLocal(offer | stale offer | "
+                           "answer | stale answer | mismatched answer | implicit), setRemote(offer | answer | mismatched | defective offer/"
+                           "answer: no ufrag / no pwd / no rtcp-mux / actpass), close} on either peer of a real pair (background connect "
+                           "tasks interleave freely); every call is judged against a JSEP reference table; non-trivial = >=2 calls judged; "
+                           "distinct = distinct event-log digests"),
+               probes=["legal_calls", "illegal_calls", "rejected_InvalidStateError", "rejected_ValueError",
+                       "calls_in_have-local-offer", "calls_in_have-remote-offer", "calls_in_closed"],
+               measure="(model state of A, model state of B) after every call", quick_s=40),
     "C04": _dtls(),
     "C11": _media(),
     "C17": _diff(),
